@@ -48,6 +48,7 @@ type AsrtSpec struct {
 	// EmptyRestrictions: this many AudienceRestriction elements without any Audience child are written into the Conditions (a
 	// restriction that names nobody is satisfied by nobody)
 	EmptyRestrictions int        `json:"audience_restrictions_without_audience,omitempty"`
+	QualAttrs         []NSDecl   `json:"foreign_namespace_attributes,omitempty"` // see RespSpec.QualAttrs (applied before this assertion is signed)
 	NoSubject         bool       `json:"no_subject,omitempty"`
 	NoNameID          bool       `json:"no_nameid,omitempty"`
 	NoConditions      bool       `json:"no_conditions,omitempty"`
@@ -89,12 +90,44 @@ type RespSpec struct {
 	// plaintext elements with the given local name. Exclusive canonicalisation leaves them out of the signed octets, so every
 	// signature stands and nothing the message says changes - whatever the prefix is called and whatever the URI reads.
 	NSDecls []NSDecl `json:"unused_namespace_declarations,omitempty"`
+	// QualAttrs: attributes in a foreign namespace (x:Recipient, x:InResponseTo, ... with xmlns:x="urn:example:ext"), written by the
+	// IdP itself before it signs - extension attributes, which the schema allows on several elements. Whatever their local name
+	// and value, they are not the unqualified attributes the protocol defines.
+	QualAttrs []NSDecl `json:"foreign_namespace_attributes,omitempty"`
 }
 
 type NSDecl struct {
 	On     string `json:"on"`     // local name of the elements that get the declaration
 	Prefix string `json:"prefix"` // e.g. NotOnOrAfter
 	Value  string `json:"value"`  // the "namespace URI"; "@ms:<n>" stands for the instant t0+n ms in its UTC lexical form
+}
+
+func applyQualAttrs(root *etree.Element, attrs []NSDecl, t0 time.Time) {
+	if len(attrs) == 0 {
+		return
+	}
+	var walk func(e *etree.Element)
+	walk = func(e *etree.Element) {
+		for _, d := range attrs {
+			if e.Tag == d.On {
+				v := d.Value
+				if strings.HasPrefix(v, "@ms:") {
+					var n int64
+					fmt.Sscanf(v, "@ms:%d", &n)
+					v = t0.Add(ms(n)).UTC().Format("2006-01-02T15:04:05.000Z")
+				}
+				e.CreateAttr("xmlns:x", "urn:example:ext")
+				e.CreateAttr("x:"+d.Prefix, v)
+			}
+		}
+		if e.Tag == "EncryptedAssertion" || e.Tag == "Signature" {
+			return
+		}
+		for _, c := range e.ChildElements() {
+			walk(c)
+		}
+	}
+	walk(root)
 }
 
 func applyNSDecls(root *etree.Element, decls []NSDecl, t0 time.Time) {
@@ -349,6 +382,7 @@ func buildAssertionEl(a *AsrtSpec, t0 time.Time, form int, method string) *etree
 		}
 		ci++
 	}
+	applyQualAttrs(el, a.QualAttrs, t0)
 	if a.Sign {
 		el = placeSignature(signEnveloped(rsaKeys[a.SignKey], method, el))
 	}
@@ -406,7 +440,23 @@ func BuildResponseEl(s *RespSpec, t0 time.Time) *etree.Element {
 		if s.Pretty {
 			el.CreateText("\n  ") // between the Response's own children only: the assertions are finished (and possibly signed) documents
 		}
-		el.AddChild(buildAssertionEl(&s.Assertions[i], t0, s.TimeForm, s.SigMethod))
+		as := s.Assertions[i]
+		as.QualAttrs = append(append([]NSDecl(nil), as.QualAttrs...), s.QualAttrs...)
+		el.AddChild(buildAssertionEl(&as, t0, s.TimeForm, s.SigMethod))
+	}
+	if len(s.QualAttrs) > 0 {
+		// the Response's own elements (the assertions, finished documents by now, have theirs already)
+		for _, d := range s.QualAttrs {
+			targets := []*etree.Element{el}
+			if st := el.FindElement("./Status/StatusCode"); st != nil {
+				targets = append(targets, st)
+			}
+			for _, e := range targets {
+				if e.Tag == d.On {
+					applyQualAttrs(e, []NSDecl{{On: e.Tag, Prefix: d.Prefix, Value: d.Value}}, t0)
+				}
+			}
+		}
 	}
 	if s.Pretty {
 		el.CreateText("\n")
